@@ -182,6 +182,27 @@ func craftedInputs() []epInput {
 	be := []byte("MM\x00*\x00\x00\x00\x08\x00\x01\x01\x12\x00\x03\x00\x00\x00\x01\x00\x06\x00\x00\x00\x00\x00\x00")
 	add("png-exif-be", pngFile(be))
 	add("png-no-exif", pngFile(nil)[:40])
+	// PNG chunk lengths with the top bit set (small negative numbers when read as signed): a walker that adds length + 4 in a
+	// signed type steps backwards over them and never ends; length + 4 wrapping to a small number is the other half
+	for _, l := range []uint32{0xfffffff4, 0xfffffff0, 0xffffffe8, 0xffffffec, 0xfffffffc, 0xfffffff8, 0x80000000, 0x7fffffff, 0xffffffff} {
+		b := []byte("\x89PNG\r\n\x1a\n")
+		b = binary.BigEndian.AppendUint32(b, 13)
+		b = append(append(b, []byte("IHDR")...), make([]byte, 13+4)...)
+		one := binary.BigEndian.AppendUint32(append([]byte{}, b...), l)
+		one = append(append(one, []byte("tEXt")...), make([]byte, 64)...)
+		add(fmt.Sprintf("png-chunk-length-%08x", l), one)
+		// an empty chunk first, then the odd length (a backward step of 24 lands on the empty chunk again)
+		two := binary.BigEndian.AppendUint32(append([]byte{}, b...), 0)
+		two = append(append(two, []byte("tEXt")...), make([]byte, 4)...)
+		two = binary.BigEndian.AppendUint32(two, l)
+		two = append(append(two, []byte("zTXt")...), make([]byte, 64)...)
+		add(fmt.Sprintf("png-empty-chunk-then-length-%08x", l), two)
+	}
+	// no TIFF header, and a tail made of order-mark bytes: the header search steps one byte at a time there, and a search
+	// that keeps looking ahead near the end of the stream asks the source once per step
+	for _, t := range []string{strings.Repeat("M", 64), strings.Repeat("I", 40), strings.Repeat("x", 100) + strings.Repeat("MI", 40), strings.Repeat("IIMM", 16), strings.Repeat("\x00", 300) + strings.Repeat("I", 33)} {
+		add(fmt.Sprintf("no-tiff-header-order-mark-tail-%d-%c", len(t), t[len(t)-1]), []byte(t))
+	}
 	// ISOBMFF: ftyp + free + moov-less; ftyp crx + moov with tiny children; meta with zero-size infe
 	box := func(t string, p []byte) []byte {
 		b := binary.BigEndian.AppendUint32(nil, uint32(8+len(p)))
